@@ -15,7 +15,8 @@ EXPLANATION = (
     "requested size; (R2) every write of the cancelled / lapsed / voided buckets is `+=` of the current "
     "remainder (or of a local proved min(., remainder)), with two named exceptions: the LAY starting-price "
     "re-size (the property's own exception) and the runner-removal void, which must reset all four other "
-    "figures together; only SimulatedOrder and that void may write them; (R3) in SimulatedOrder.place every "
+    "figures together; only SimulatedOrder and that void may write them; an order that replaces another one "
+    "gets an order type of its own (the requested size of the replaced order is never overwritten); (R3) in SimulatedOrder.place every "
     "FAILURE return and every fill-or-kill return is preceded in its own branch by emptying the remainder; "
     "(R4) matched grows only through _update_matched / the full-match branch, the passive fill sites clamp to "
     "the remainder, the crossing-match helpers are called only from place with the order's own size, and "
